@@ -172,6 +172,41 @@ def r4(R, repo):
   R.check("raise ValueError('broadcasted variable has a data dependency on the scan body.')" in astu.src(sf.node), key_of(sf, 'broadcast outputs must be loop-invariant'), sf, 'scan_fn must reject broadcast variables that depend on the loop body')
 
 
+@rule('C06.R8', 'K3', 1, 'scan: immutable broadcast collections are fed back without overriding what the body produced')
+def r8(R, repo):
+  f = repo.func(LI, 'scan.inner.scanned')
+  key = key_of(f, 'broadcast re-injection keeps the collections the body returned')
+  ps = astu.params(f.node)
+  R.require(len(ps) >= 1, 'scanned: parameters changed')
+  bin_ = ps[0]
+  # the (in group, out group) pairs come from zip(<broadcast in>, <broadcast out>)
+  zips = [n for n in ast.walk(f.node) if isinstance(n, (ast.For, ast.comprehension)) and isinstance(n.iter, ast.Call) and astu.call_name(n.iter) == 'zip' and len(n.iter.args) == 2
+          and isinstance(n.target, ast.Tuple) and len(n.target.elts) == 2 and all(isinstance(e, ast.Name) for e in n.target.elts) and astu.src(n.iter.args[0]) == bin_]
+  if len(zips) != 1:
+    R.unsure(key, f, 'loop over zip(%s, <broadcast out>) not found' % bin_)
+    return
+  z = zips[0]
+  gin, gout = z.target.elts[0].id, z.target.elts[1].id
+  scope = z if isinstance(z, ast.For) else astu.parent(z)
+  merges = [d for d in ast.walk(scope) if isinstance(d, ast.Dict) and d.keys and all(k is None for k in d.keys) and {astu.src(v) for v in d.values} == {gin, gout}]
+  stores = [n for n in ast.walk(scope) if isinstance(n, ast.Assign) and len(n.targets) == 1 and isinstance(n.targets[0], ast.Subscript) and astu.src(n.targets[0].value) == gout]
+  upd = [x for x in ast.walk(scope) if isinstance(x, ast.Call) and astu.src(x.func) == gout + '.update' and x.args and astu.src(x.args[0]) == gin]
+  if merges:
+    d = merges[0]
+    last = astu.src(d.values[-1])
+    R.check(last == gout, key, (f, d), 'in `%s` the incoming broadcast group is unpacked last, so a stale input collection overrides the one the scan body just produced (e.g. freshly initialised broadcast parameters are dropped)' % astu.short(d), evidence=True)
+  elif upd:
+    R.fail(key, (f, upd[0]), '`%s` overwrites the collections the body produced with the incoming broadcast group' % astu.short(upd[0]))
+  elif stores and isinstance(z, ast.For):
+    c = cfg_of(f)
+    nodes = [n for st in stores for n in c.nodes_for(st)]
+    col = astu.src(stores[0].targets[0].slice)
+    evid.judge_guard(R, c, nodes, lambda t, _col=col, _g=gout: isinstance(t, ast.Compare) and len(t.ops) == 1 and isinstance(t.ops[0], ast.NotIn) and astu.src(t.left) == _col and astu.src(t.comparators[0]) == _g, key, f,
+                     'a collection may be copied from the incoming broadcast group only when the body did not return it (`if col not in out_group`): otherwise the stale input overrides the fresh output')
+  else:
+    R.unsure(key, f, 're-injection of the immutable broadcast collections not recognised')
+
+
 @rule('C06.R5', 'K6', 7, 'options of nn.scan / nn.vmap / nn.remat_scan reach lift.*, axes_scan.scan, lax.scan and jax.vmap unchanged')
 def r5(R, repo):
   _c05.check_lift_plumbing(R, repo, 'scan', 'lift.scan', ['variable_axes', 'variable_broadcast', 'variable_carry', 'split_rngs', 'in_axes', 'out_axes', 'length', 'reverse', 'unroll', '_split_transpose', 'data_transform', 'metadata_params', 'check_constancy_invariants'])
